@@ -11,6 +11,7 @@ import KrakenModel.Proof.C22
   `GetOrderedNodes` result of the real code.  The only hypothesis is that the scores of the nodes
   for the key are pairwise distinct (`InjOn`); the driver reports every tie it meets.
 -/
+set_option linter.unusedSectionVars false
 namespace KrakenModel.Spec.C22
 open KrakenModel KrakenModel.Rendezvous KrakenModel.Proof.C22
 
@@ -137,7 +138,7 @@ the result may depend on insertion order / the sort algorithm. -/
 theorem tie_admits_two_orderings :
     IsOrdering (fun (_ : Unit) (_ : Nat) => (0 : Int)) () [1, 2] [1, 2] ∧
     IsOrdering (fun (_ : Unit) (_ : Nat) => (0 : Int)) () [1, 2] [2, 1] := by
-  refine ⟨⟨List.Perm.refl _, by decide⟩, ⟨List.Perm.swap 2 1 [], by decide⟩⟩
+  refine ⟨⟨List.Perm.refl _, by decide⟩, ⟨List.Perm.swap 1 2 [], by decide⟩⟩
 
 end Generic
 
@@ -179,7 +180,7 @@ theorem removeNode_erases (s : State) (nd : Node) (hm : nd ∈ s.nodes)
   induction l with
   | nil => cases hm
   | cons x t ih =>
-    have hl' := List.nodup_cons.mp (by simpa using hl)
+    have hl' : x.label ∉ t.map (·.label) ∧ (t.map (·.label)).Nodup := List.nodup_cons.mp hl
     by_cases hx : x = nd
     · subst hx; simp
     · have hmt : nd ∈ t := by
